@@ -81,9 +81,15 @@ class BodyPart(multipart.BodyPart):
 
     async def get_data(self) -> bytes:  # type: ignore[override]
         if self._data is None:
+            # NOTE: The stream has been consumed up to the limit by then; do
+            #   not mistake what is left of it for the content.
+            if self._data_too_large:
+                raise MultipartParseError(description='body part is too large')
+
             max_size = self._parse_options.max_body_part_buffer_size + 1
             data = await self.stream.read(max_size)
             if len(data) >= max_size:
+                self._data_too_large = True
                 raise MultipartParseError(description='body part is too large')
 
             # NOTE: Only cache content that has passed the size check.
